@@ -32,6 +32,7 @@ type condInst struct {
 }
 
 var errUser = errors.New("user error")
+var errSilent = errors.New("")
 
 type namedVal struct {
 	n string
@@ -296,6 +297,8 @@ func c06Ops(variant ...string) []condOp {
 		}},
 		condOp{`SetEncap()`, live, func(in *condInst) { in.c.SetEncap(); in.enc = nil }},
 		condOp{"SetErr(e)", live, func(in *condInst) { in.c.SetErr(errUser); in.err, in.ctorEr = errUser, false }},
+		// an error that says nothing is an error all the same (round 14)
+		condOp{"SetErr(error with empty text)", live, func(in *condInst) { in.c.SetErr(errSilent); in.err, in.ctorEr = errSilent, false }},
 		condOp{"SetErr(nil)", live, func(in *condInst) { in.c.SetErr(nil); in.err, in.ctorEr = nil, false }},
 	)
 	if !deepEnc {
@@ -459,8 +462,90 @@ func c06Machine(c *Ctx, variant ...string) *Machine[*condInst] {
 	}
 }
 
+// lateOp is a user-defined Operator whose texts its owner may change after a Condition accepted it: the
+// Condition holds the operator, not a copy of what it said on the day (round 14).
+type lateOp struct{ sym, ctx string }
+
+func (o *lateOp) String() string  { return o.sym }
+func (o *lateOp) Context() string { return o.ctx }
+
+// c06LateOperators: every (no-padding, parenthetical, expression, what the operator says later) combination
+// around one accepted operator. Oracle: the statement itself - Valid() is nil because keyword, operator
+// and expression are there, the operator held is the one accepted, String() is keyword + pad + whatever
+// the operator says now + pad + expression; and when the operator says again what it said at first the
+// first rendering returns.
+func c06LateOperators(c *Ctx) int {
+	n := 0
+	for m := 0; m < 4; m++ {
+		for _, ex := range []any{"val", 7, stackage.Or().Push("a", "b")} {
+			for _, late := range [][2]string{{"", "approx"}, {"~=", ""}, {"", ""}, {"=~", "other"}} {
+				n++
+				c.Transitions.Add(1)
+				c.Evals.Add(1)
+				op := &lateOp{"~=", "approx"}
+				cd := stackage.Cond("kw", op, ex)
+				nopad, paren := m&1 != 0, m&2 != 0
+				cd.SetNoPadding(nopad).SetParen(paren)
+				desc := fmt.Sprintf("Cond(kw, lateOp(~=,approx), %v) nopad=%v paren=%v, then the operator says (%q,%q)", ex, nopad, paren, late[0], late[1])
+				render := func() (string, error, string) {
+					var str string
+					var verr error
+					p := noPanic(func() { verr = cd.Valid(); str = cd.String() })
+					return str, verr, p
+				}
+				want := func() string {
+					pad := " "
+					if nopad {
+						pad = ""
+					}
+					return "kw" + pad + op.sym + pad + renderExpr(ex)
+				}
+				check := func(stage string) bool {
+					str, verr, p := render()
+					if p != "" {
+						c.Violation("panic:late-operator", desc+" ("+stage+"): "+p, nil, len(desc))
+						return false
+					}
+					if verr != nil {
+						c.Violation("Valid:late-operator", fmt.Sprintf("%s (%s): Valid()=%v although keyword, operator and expression are present", desc, stage, verr), nil, len(desc))
+						return false
+					}
+					if got := cd.Operator(); got != stackage.Operator(op) {
+						c.Violation("Operator:late-operator", fmt.Sprintf("%s (%s): Operator()=%v is not the operator accepted", desc, stage, got), nil, len(desc))
+						return false
+					}
+					core, par := str, false
+					if paren {
+						core, par = normParen(str)
+					}
+					if core != want() || par != paren {
+						c.Violation("String:late-operator", fmt.Sprintf("%s (%s): String()=%q want %q parenthesised=%v", desc, stage, str, want(), paren), nil, len(desc))
+						return false
+					}
+					return true
+				}
+				if !check("as accepted") {
+					continue
+				}
+				first, _, _ := render()
+				op.sym, op.ctx = late[0], late[1]
+				if !check("after the change") {
+					continue
+				}
+				op.sym, op.ctx = "~=", "approx"
+				if again, _, _ := render(); again != first {
+					c.Violation("String:late-operator", fmt.Sprintf("%s, then (~=,approx) again: String()=%q, at first %q", desc, again, first), nil, len(desc))
+				}
+				c.Nontrivial(desc)
+			}
+		}
+	}
+	return n
+}
+
 func init() {
 	register(&Check{ID: "C06", Engine: "A", Run: func(c *Ctx) {
+		c.Bound["operators_that_change_their_text_after_acceptance"] = c06LateOperators(c)
 		c06QuickAlphabet = c.Quick()
 		me := c06Machine(c, "encapsulation")
 		if c.Quick() {
